@@ -33,6 +33,8 @@ type FindingsFile struct {
 	Fixed []string  `json:"fixed"`
 }
 
+var exploreSeq int
+
 type unitResult struct {
 	unit      *CheckSpec
 	run       *Run
@@ -98,7 +100,11 @@ func exploreUnit(o *checkOpts, unit *CheckSpec, patches []SourcePatch, dumpDir s
 	ur.jobs = jobs
 	r := newRun(prog, unit, o.solver, o.timeout)
 	if dumpDir != "" && o.crossEvery > 0 {
-		r.dumpDir, r.dumpEvery = dumpDir, o.crossEvery
+		// one sub-directory per exploration: units and phases must not overwrite each other's dumps
+		exploreSeq++
+		sub := filepath.Join(dumpDir, fmt.Sprintf("x%03d", exploreSeq))
+		os.MkdirAll(sub, 0o755)
+		r.dumpDir, r.dumpEvery = sub, o.crossEvery
 		r.dumpMax = 3
 		if o.tier == "thorough" {
 			r.dumpMax = 12
